@@ -829,3 +829,29 @@ def run_a17(chk, A17, repo):
                           f'legal rate constants {skipped} (source, destination; 4 = the output compartment addressed by its '
                           f'number) are silently dropped', line=I.lineno,
                           witness='$MODEL with three compartments and K24 = CL/V: the central compartment has no elimination')
+
+
+def interpreter_handler_value(repo, crm, ei, rule):
+    """the expression a rule handler of ExpressionInterpreter returns: `def rule(self, _): return V`, `rule = lambda self, _: V`
+    or `rule = factory(V)` with factory(value) returning a function that returns `value`. None when there is no handler (or
+    it is not of these shapes)"""
+    m = repo.find_method(ei, rule)
+    if m is not None:
+        rets = [n.value for n in walk_no_nested(m.node) if isinstance(n, ast.Return) and n.value is not None]
+        return rets[0] if len(rets) == 1 else None
+    for st in ei.node.body:
+        if isinstance(st, ast.Assign) and any(isinstance(t, ast.Name) and t.id == rule for t in st.targets):
+            v = st.value
+            if isinstance(v, ast.Lambda):
+                return v.body
+            if isinstance(v, ast.Call) and isinstance(v.func, ast.Name) and len(v.args) == 1 and not v.keywords:
+                g = crm.functions.get(v.func.id)
+                if g is not None and len(g.params) == 1:
+                    inner = [x for x in g.node.body if isinstance(x, ast.FunctionDef)]
+                    outer_ret = [x.value for x in g.node.body if isinstance(x, ast.Return)]
+                    if len(inner) == 1 and len(outer_ret) == 1 and isinstance(outer_ret[0], ast.Name) \
+                            and outer_ret[0].id == inner[0].name:
+                        irets = [x.value for x in walk_no_nested(inner[0]) if isinstance(x, ast.Return)]
+                        if len(irets) == 1 and isinstance(irets[0], ast.Name) and irets[0].id == g.params[0]:
+                            return v.args[0]
+    return None
